@@ -1630,7 +1630,11 @@ func (e *SpecEnv) evalRec(m *SpecMacro, as []*SV) *SV {
 	}
 	if fn := g.recName[m.Name]; fn != "" {
 		// inside an unfolding: the recursive occurrence
-		return svInt(App(fn, SInt, leaves...))
+		inner := App(fn, SInt, leaves...)
+		if m.Nat {
+			g.releaseFacts([]*Term{Le(Int(0), inner)})
+		}
+		return svInt(inner)
 	}
 	// pass 1: which heap versions does the body read here?
 	ids := map[int]bool{}
@@ -1659,6 +1663,9 @@ func (e *SpecEnv) evalRec(m *SpecMacro, as []*SV) *SV {
 	app := App(fn, SInt, leaves...)
 	if !g.recUnfolded[app.id] {
 		g.recUnfolded[app.id] = true
+		if m.Nat {
+			g.releaseFacts([]*Term{Le(Int(0), app)})
+		}
 		g.recName[m.Name] = fn
 		ue := bind()
 		r2 := ue.eval(m.Body)
